@@ -13,9 +13,9 @@ import (
 // ---- C13: only the fully authenticated owner, proving the factor, can change 2FA settings
 
 type monC13 struct {
-	sms    []*smsSent // latest code sent for each browser
-	issued []string   // e-mail verify token mailed for this browser's session
-	authed []bool     // model: this browser's session presented its mailed token
+	sms      []*smsSent      // latest code sent for each browser
+	issued   []string        // e-mail verify token mailed for this browser's session
+	authed   []bool          // model: this browser's session presented its mailed token
 	spentRec map[string]bool // recovery codes already used once (whatever storage still says)
 	// model of how each browser's session got its user: "full" only after a completed login
 	// as that user (all steps), "half" after a remember re-authentication; the session's
